@@ -86,7 +86,12 @@ def main(only=None):
                                          'tie_disagreements': rec.get('tie_disagreements'), 'oracle_failures': rec.get('oracle_failures')},
                         'origin': 'independent sub-agent given only the property text and a scratch worktree'}
                 json.dump(meta, open(dst + '/meta.json', 'w'), indent=1)
-    json.dump(summary, open('/verif/seeded/SUMMARY.json', 'w'), indent=1)
+    old = []
+    if os.path.exists('/verif/seeded/SUMMARY.json'):
+        old = json.load(open('/verif/seeded/SUMMARY.json'))
+    ids = {r['id'] for r in summary}
+    merged = sorted([r for r in old if r['id'] not in ids] + summary, key=lambda r: r['id'])
+    json.dump(merged, open('/verif/seeded/SUMMARY.json', 'w'), indent=1)
 
 
 if __name__ == '__main__':
